@@ -28,7 +28,7 @@ CONFIG = dict(
     min_nontrivial={"quick": 30, "thorough": 500},
     nshards={"quick": 4, "thorough": 8},
     timeout={"quick": 900, "thorough": 5400},
-    required_counters=("views_read_before_injection", "refused_first_attempts", "non_default_protocol_cases", "injections", "members_compared", "loads_compared"),
+    required_counters=("views_read_before_injection", "reserved_name_cases", "refused_first_attempts", "non_default_protocol_cases", "injections", "members_compared", "loads_compared"),
 )
 
 
@@ -51,15 +51,17 @@ REFUSED_PAYLOADS = [["vp_refused = 1", None], None, ("vp_refused = 2", object())
                     {"vp_refused = 4": {5}}, b"\xff\xfe" * 3 + b"\x00" if False else ["vp_refused = 5", b"\xff", {"k": None}]]
 
 
-def run_case(ctx, mods, label, obj, text, overwrite, raw=False, proto=None, refused_first=None, touch_first=None):
+def run_case(ctx, mods, label, obj, text, overwrite, raw=False, proto=None, refused_first=None, touch_first=None, fname=None):
     torch, f, PyTorchModelWrapper = mods
     import vp_sink
     agg = ctx.agg
-    src = os.path.join(ctx.scratch, "c16_model.pt")
+    src = os.path.join(ctx.scratch, fname or "c16_model.pt")     # (torch names the archive's root directory after the file stem)
     out = os.path.join(ctx.scratch, "c16_injected.pt")
     for p in (src, out):
         if os.path.exists(p):
             os.remove(p)
+    if fname:
+        label = label + "@" + fname
     if proto is None:
         torch.save(obj, src)
     else:
@@ -237,6 +239,17 @@ def run_shard(ctx):
             i += 1
             if i % ctx.nshards == ctx.shard:
                 run_case(ctx, mods, label + "+refused-first", obj, texts[i % len(texts)], bool(i % 2), refused_first=ri)
+    # file names whose stem is one of the member names the format reserves (the archive's root directory gets that name)
+    for label, obj in list(torchfiles.models(torch, asm.rng_for(ctx.seed, "c16names"), 0))[:6]:
+        for fname in ("data.pkl.pt", "data.pkl.zip", "version.pt", "constants.pkl.pt", "byteorder.pt", "data.pt", ".data.pkl.pt",
+                      "data.pkl", "model data.pkl v2.pt"):
+            i += 1
+            if i % ctx.nshards == ctx.shard:
+                run_case(ctx, mods, label, obj, texts[i % len(texts)], bool(i % 2), fname=fname)
+                ctx.agg.count("reserved_name_cases")
+                pth = os.path.join(ctx.scratch, fname)
+                if os.path.exists(pth):
+                    os.remove(pth)
     # the wrapper's read-only properties are read before the injection (scan, then inject)
     for label, obj in list(torchfiles.models(torch, asm.rng_for(ctx.seed, "c16touch"), 0))[:10]:
         for touch in ("pickled", "formats", "pickled+formats", "validate+pickled"):
